@@ -143,6 +143,7 @@ func (rm *RegistrationManager) startIngestThread(ctx context.Context, regChan <-
 func (rm *RegistrationManager) ingestRegistration(reg *DecoyRegistration) {
 	logger := rm.Logger
 
+	verifhook.Yield("ingest.validate", reg)
 	if ok, err := rm.ValidateRegistration(reg); !ok || err != nil {
 		if err == errBlocklistedPhantom {
 			rm.AddBlocklistedPhantomReg()
